@@ -62,18 +62,21 @@ class FitFractions:
             mcdata = mcdata.eval()
         if weight is None:
             weight = mcdata.get("weight", 1.0)
-        int_mc, g_int_mc = eval_integral(
-            self.amp,
-            mcdata,
-            var=self.var,
-            weight=weight,
-            args=args,
-            kwargs=kwargs,
-        )
-        self.cached_int_total += int_mc
-        self.cached_grad_total += g_int_mc
         old_chains_idx = list(self.amp.decay_group.chains_idx)
         try:
+            # the total refers to the listed resonances (as in
+            # cal_fitfractions), not to a selection that happens to be active
+            self.amp.set_used_res(self.res)
+            int_mc, g_int_mc = eval_integral(
+                self.amp,
+                mcdata,
+                var=self.var,
+                weight=weight,
+                args=args,
+                kwargs=kwargs,
+            )
+            self.cached_int_total += int_mc
+            self.cached_grad_total += g_int_mc
             amp_tmp = self.amp
             for i in range(len(self.res)):
                 for j in range(i, -1, -1):
